@@ -18,7 +18,7 @@ def calcN (Q0 n0 : V3 α) : Py (M3 α) := do
   let n := V3.normalised n0
   let ang ← angleBetween Q n
   let n :=
-    if isSmall (toRad ang) then
+    if isSmall (sin (toRad ang)) then
       let imin := argmin3 (abs Q.x) (abs Q.y) (abs Q.z)
       let (i1, i2) := match imin with | 0 => (1, 2) | 1 => (0, 2) | _ => (0, 1)
       let qval := hypot (Q.get i1) (Q.get i2)
